@@ -363,7 +363,7 @@ impl PartialOrd for Object {
 }
 
 macro_rules! impl_arith {
-    ($func_name:ident, $op:tt) => {
+    ($func_name:ident, $op:tt, $checked_op:ident) => {
         #[inline(always)]
         pub(crate) fn $func_name(self, rhs: Self, gc: &mut GC) -> Result<Object, Error> {
             if self.tag() != rhs.tag() {
@@ -371,7 +371,10 @@ macro_rules! impl_arith {
             }
 
             let result = match self.tag() {
-                Type::Int => Object::int(self.as_int() $op rhs.as_int()),
+                Type::Int => match self.as_int().$checked_op(rhs.as_int()) {
+                    Some(value) if (MIN_INT..=MAX_INT).contains(&value) => Object::int(value),
+                    _ => return Err(Error::TypeError(format!("de uitkomst van {} {} {} is geen geldig geheel getal", self.as_int(), stringify!($op), rhs.as_int()))),
+                },
 
                 // Safety: We've already asserted the object type
                 Type::Float => unsafe {
@@ -413,11 +416,11 @@ macro_rules! impl_cmp {
 }
 
 impl Object {
-    impl_arith!(add, +);
-    impl_arith!(sub, -);
-    impl_arith!(mul, *);
-    impl_arith!(div, /);
-    impl_arith!(rem, %);
+    impl_arith!(add, +, checked_add);
+    impl_arith!(sub, -, checked_sub);
+    impl_arith!(mul, *, checked_mul);
+    impl_arith!(div, /, checked_div);
+    impl_arith!(rem, %, checked_rem);
 
     impl_cmp!(gt, >);
     impl_cmp!(gte, >=);
